@@ -50,17 +50,27 @@ theorem input_src_eq_model (st : State) (data : Bytes) (hb : st.buffer.length = 
     Poly1305.input_src st data = input st data := input_src_eq st data hb
 
 /-- the pieces of `input` separately: whole-block loop = `blocks`, continuation = `inputTail`, top-up loop = `copyInto` -/
-theorem input_loop_src_eq_model (fuel : Nat) (st : State) (m : Bytes) :
-    Poly1305.input_loop1_src fuel st m = blocks fuel st m := input_loop1_eq fuel st m
+theorem input_loop_src_eq_model (fuel : Nat) (st : State) (m : Bytes) (hf : m.length ≤ fuel) :
+    Poly1305.input_loop1_src (fuel + 1) st m = blocks fuel st m := input_loop1_eq fuel st m hf
+
+/-- running out of fuel is a FAILURE of the generated loop (audit 3, F11), never a success value -/
+theorem input_loop_src_fuel_exhausted (st : State) (m : Bytes) :
+    Poly1305.input_loop1_src 0 st m = .error .diverge := input_loop1_zero st m
 
 theorem input_tail_src_eq_model (st : State) (m : Bytes) (hb : st.buffer.length = 16) :
     Poly1305.input_k1_src st m = inputTail st m := input_k1_eq st m hb
 
-/-- fuel adequacy of the `while m.len() >= 16` loop: started with fuel `m.len()` it stops with fewer than 16 bytes left -/
+/-- fuel adequacy of the `while m.len() >= 16` loop: started with the fuel the generated code passes (`m.len() + 1`) it never ends in
+    `.diverge`, and when it returns it stops with fewer than 16 bytes left -/
 theorem input_loop_fuel_adequate (st st' : State) (m m' : Bytes)
-    (h : Poly1305.input_loop1_src m.length st m = .ok (st', m')) : m'.length < 16 := by
-  rw [input_loop1_eq] at h
+    (h : Poly1305.input_loop1_src (m.length + 1) st m = .ok (st', m')) : m'.length < 16 := by
+  rw [input_loop1_eq m.length st m (Nat.le_refl _)] at h
   exact blocks_exit m.length st st' m m' (Nat.le_refl _) h
+
+theorem input_loop_never_diverges (st : State) (m : Bytes) :
+    Poly1305.input_loop1_src (m.length + 1) st m ≠ .error .diverge := by
+  rw [input_loop1_eq m.length st m (Nat.le_refl _)]
+  exact blocks_ne_diverge m.length st m
 
 /-- `reset` -/
 theorem reset_src_eq_model (st : State) : Poly1305.reset_src st = reset st := rfl
